@@ -312,11 +312,15 @@ def req_region(facts):
                 if not (inc.get("k") == "Un" and inc.get("op") == "++" and strip_all(inc.get("e") or {}).get("k") == "Ref"):
                     return False
                 vd = strip_all(inc["e"])["d"]
+                cnd = s["c"]
+                c0 = strip_all(cnd)
+                if isinstance(c0, dict) and c0.get("k") == "Ref" and c0.get("d") in bool_inits:
+                    cnd = bool_inits[c0["d"]]        # `const bool odd = ((n - x) & 1) != 0; if (odd) ++x;`
                 tests = []
-                walk(s["c"], lambda n: tests.append(n) if n.get("k") == "Bin" and n.get("op") == "&" and any(strip_all(n[a]).get("v") == 1 for a in ("l", "r")) else None)
+                walk(cnd, lambda n: tests.append(n) if n.get("k") == "Bin" and n.get("op") == "&" and any(strip_all(n[a]).get("v") == 1 for a in ("l", "r")) else None)
                 if len(tests) != 1:
                     return False
-                ct = txt(s["c"]).replace(" ", "")
+                ct = txt(cnd).replace(" ", "")
                 if ct.startswith("!") or "(0==" in ct or "==0)" in ct:
                     return False     # the increment must happen when the bit is SET
                 t = tests[0]
@@ -330,9 +334,29 @@ def req_region(facts):
                 env[vd] = fresh
                 even.add("(%s-%s)" % (a, fresh))
                 return True
-            for s in stmts_of(fn["body"]):
+            bool_inits = {}
+            walk(fn["body"], lambda n: [bool_inits.__setitem__(v["d"], v["init"]) for v in n.get("vars", []) if "d" in v and v.get("init") is not None and (v.get("t") or "").replace("const ", "") == "bool"] if n.get("k") == "Decl" else None)
+            todo = list(stmts_of(fn["body"]))
+            while todo:
+                s = todo.pop(0)
+                if ret is not None:
+                    break
                 if parity_fix(s):
                     continue
+                if s.get("k") == "Block":
+                    todo = list(stmts_of(s)) + todo
+                    continue
+                if s.get("k") == "If":
+                    c0 = strip_all(s["c"])
+                    neg = False
+                    if c0.get("k") == "Un" and c0.get("op") == "!":
+                        c0, neg = strip_all(c0["e"]), True
+                    if c0.get("k") == "Member" and c0.get("f") == "hra_":
+                        # the buffer layout is fixed for this evaluation: follow the arm that is taken
+                        taken = s.get("t") if (hra != neg) else s.get("e")
+                        if taken is not None:
+                            todo = (list(stmts_of(taken)) if taken.get("k") == "Block" else [taken]) + todo
+                        continue
                 if s.get("k") == "Decl":
                     for v in s["vars"]:
                         env[v["d"]] = ev(v["init"]) if v.get("init") else "?"
